@@ -6,6 +6,7 @@ import z3
 from fractions import Fraction as Fr
 from symx.values import Q, B, CTX, eq_goal
 from symx import loader, solve, replay, pyx2py, skeleton
+from symx.pyx2py import CArr, Ptr
 from symx.solve import Obligation, discharge, reach_twin, TIER, REPO, VERIF
 
 PID = 'C06'
@@ -127,6 +128,213 @@ def job_wrapper_sizes():
     so.add(pc)
     res.append({'name': 'wrapper sizes [reachability twin]', 'key': 'twin', 'twin': True, 'verdict': str(so.check()), 'solver_s': 0.0, 'info': {'guards': guards}})
     return {'results': res, 'encoded': loader.ENCODED, 'label': 'wrapper sizes'}
+
+
+# ------------------------------------------------------------------------------------------------ whole cf_radial_solver over symbolic data with stub kernels (buffer discipline)
+def job_whole(stack, nondim):
+    """The WHOLE transliterated cf_radial_solver is executed for a concrete stack (types / static flags; 4 + k slices per layer; concrete rational radii, every other number a symbol)
+    with recording stubs for the kernels it calls and for the CyRK solver object. Indices and sizes are concrete, so every buffer access is checked against the extent it was
+    allocated / declared with, and the data flow of the integration phase is compared with what it must be."""
+    import c02
+    fn, code = load_fn('cf_radial_solver')
+    L = len(stack)
+    nsl = [4 + i for i in range(L)]
+    total = sum(nsl)
+    starts = [sum(nsl[:i]) for i in range(L)]
+    bounds = [Fr(i + 1) for i in range(L)]
+    radius = CArr((total,), 'radius_array')
+    k = 0
+    for li in range(L):
+        lo = Fr(li) if li else Fr(1, 10)
+        for j in range(nsl[li]):
+            radius.data[k] = Q(lo + (bounds[li] - lo) * (Fr(j, nsl[li] - 1) if li == 0 else Fr(j + 1, nsl[li])))     # strictly increasing; the last point of a layer is its upper radius
+            k += 1
+
+    def sym_arr(name, cplx=False):
+        a = CArr((total,), name)
+        for i in range(total):
+            a.data[i] = Q.csym('%s_%d' % (name, i)) if cplx else Q.sym('%s_%d' % (name, i))
+        return a
+    density, gravity, bulk, shear = sym_arr('rho'), sym_arr('g'), sym_arr('K'), sym_arr('mu')
+    nsols = [c02.nsol(t, st) for (t, st, inc) in stack]
+    rec = {'alloc': [], 'freed': [], 'start': [], 'iface': [], 'solver': [], 'surface': [], 'rev': [], 'collapse': [], 'love': [], 'nondim': 0, 'redim': 0, 'redim_rf': 0}
+    cNAN, rNAN = Q.sym('cmplx_NAN'), Q.sym('NAN')
+
+    def allocate_mem(n, name=''):
+        n = int(Q.of(n).const()) if not isinstance(n, int) else n
+        a = CArr((n,), str(name).split(' ')[0])
+        rec['alloc'].append(a)
+        return a
+
+    def PyMem_Free(pt):
+        base = pt.base if isinstance(pt, Ptr) else pt
+        rec['freed'].append(base)
+
+    def find_start(lt, st, inc, use_kamata, freq, r_lo, rho_lo, K_lo, mu_lo, degree_l, Gv, maxy, init, check):
+        li = 0
+        for j in range(nsols[li]):
+            for y in range(2 * nsols[li]):
+                init[j * maxy + y] = Q.csym('init_L0_s%d_y%d' % (j, y))
+        rec['start'].append(dict(lt=lt, st=st, inc=inc, r_lo=r_lo, rho_lo=rho_lo, K_lo=K_lo, mu_lo=mu_lo))
+
+    def iface(upp, init, n_below, n_here, maxy, ltb, stb, incb, lt, st, inc, ig, sld, Gv):
+        li = len(rec['iface']) + 1
+        rec['iface'].append(dict(upp=[upp[j * maxy + y] for j in range(n_below) for y in range(2 * n_below)], n_below=n_below, n_here=n_here, below=(ltb, stb, incb), here=(lt, st, inc), ig=ig, sld=sld))
+        for j in range(n_here):
+            for y in range(2 * n_here):
+                init[j * maxy + y] = Q.csym('init_L%d_s%d_y%d' % (li, j, y))
+
+    class Solver:
+        def __init__(self, li, a):
+            self.li, self.args, self.success, self.message, self.calls, self.y0 = li, a, True, '', 0, [a[14]]
+            self.solution_y_ptr = None
+
+        def change_y0_pointer(self, pt, auto_reset_state=False):
+            self.y0.append(pt)
+
+        def _solve(self, reset=True):
+            n = nsl[self.li] * 4 * nsols[self.li]
+            a = CArr((n,), 'solver_solution')
+            for i in range(n):
+                a.data[i] = Q.sym('sol_L%d_c%d_%d' % (self.li, self.calls, i))
+            # snapshot of the initial condition the solver would start from: the 2*num_ys reals at its current y0 pointer
+            y0 = self.y0[-1]
+            self.snap = getattr(self, 'snap', []) + [[y0[i] for i in range(4 * nsols[self.li])]]
+            self.sols = getattr(self, 'sols', []) + [a]
+            self.solution_y_ptr = a
+            self.calls += 1
+
+    def build_solver(*a):
+        sv = Solver(len(rec['solver']), a)
+        rec['solver'].append(sv)
+        return sv
+
+    def st_surface(cv, info, bc, upp, gs, Gv, num_sols, maxy, ytype_i, lt, st, inc):
+        for j in range(num_sols):
+            cv[j] = Q.csym('Csurf_t%d_%d' % (ytype_i, j))
+        info.v = 0
+        rec['surface'].append(ytype_i)
+
+    def st_rev(cv, cv_above, upp, *a):
+        kk = len(rec['rev'])
+        for j in range(a[-2]):
+            cv[j] = Q.csym('Cint%d_%d' % (kk, j))
+        rec['rev'].append(a)
+    real_col, _ = loader.load_pyx('TidalPy/RadialSolver/collapse/collapse.pyx', ['cf_collapse_layer_solution'], {})
+
+    class Sol:
+        def __init__(self, total_slices, solve_for, num_ytypes):
+            self.full_solution_ptr = CArr((int(total_slices) * 6 * int(num_ytypes),), 'full_solution')
+            self.complex_love_ptr = CArr((3 * int(num_ytypes),), 'complex_love')
+            self.success, self.message = None, None
+            rec['solution'] = self
+
+    def nd_stub(kind):
+        def f(*a):
+            rec[kind] += 1
+        return f
+    G = Q.sym('G')
+    ns = {'G': G, 'MAX_NUM_Y': 6, 'MAX_NUM_Y_REAL': 12, 'NAN': rNAN, 'cmplx_NAN': cNAN, 'PyMem_Free': PyMem_Free, 'allocate_mem': allocate_mem, 'RadialSolverSolution': Sol,
+          'cf_apply_surface_bc': st_surface, 'cf_build_dblcmplx': lambda a, b: Q.of(a) + Q(0, 1) * Q.of(b), 'cf_build_solver': build_solver,
+          'cf_collapse_layer_solution': real_col['cf_collapse_layer_solution'], 'cf_find_num_solutions': lambda t, st, inc: c02.nsol(t, st), 'cf_find_starting_conditions': find_start,
+          'cf_non_dimensionalize_physicals': nd_stub('nondim'), 'cf_redimensionalize_physicals': nd_stub('redim'), 'cf_redimensionalize_radial_functions': nd_stub('redim_rf'),
+          'cf_solve_upper_y_at_interface': iface, 'cf_top_to_bottom_interface_bc': st_rev, 'find_love_cf': lambda out, surf, gs: rec['love'].append([surf[i] for i in range(6)]),
+          'isnan': lambda v: False}
+    ns.update(pyx2py.RUNTIME)
+    ns.update({k_: v_ for k_, v_ in loader.base_ns().items() if k_ not in ns})
+    mod = ast.Module(body=[loader._Rewrite(code).visit(fn)], type_ignores=[])
+    ast.fix_missing_locations(mod)
+    exec(compile(mod, SOLVER + ':cf_radial_solver', 'exec'), ns)
+    f = ns['cf_radial_solver']
+    # with nondimensionalize the scaling kernels are stubs (their own contracts are C03): radii and layer bounds are given already scaled (outer radius 1), so radius_planet = 1 and the
+    # layer search compares like with like
+    if nondim:
+        Rtop = radius.data[total - 1]
+        for i in range(total):
+            radius.data[i] = Q.of(radius.data[i]) / Rtop
+        upper = [b / Fr(L) for b in bounds]
+    else:
+        upper = list(bounds)
+    pyx2py.VIOLATIONS.clear()
+    pyx2py.STRICT[0] = False
+    try:
+        sol = f(total, radius, density, gravity, bulk, shear, Q.sym('w'), Q.sym('rho_bulk'), L, [t for (t, st, inc) in stack], [st for (t, st, inc) in stack], [inc for (t, st, inc) in stack],
+                [Q(u) for u in upper], 2, ('tidal', 'loading'), False, 'rk45', Q.sym('rtol'), Q.sym('atol'), True, 500000, 500, 500, Q(0), True, nondim, False, False)
+    finally:
+        viol = list(pyx2py.VIOLATIONS)
+        pyx2py.STRICT[0] = True
+    tag = ' / '.join(c02.kname(t, st) for (t, st, inc) in stack) + (' [nondimensionalize]' if nondim else '')
+    results = []
+
+    def ob(name, conds, key, A=()):
+        results.append(discharge(Obligation('cf_radial_solver whole run [%s]: %s' % (tag, name), z3.And(*conds) if conds else z3.BoolVal(True), list(A), with_axioms=False, with_dens=False,
+                                            replay=lambda md, name=name: (True, 'whole-function run of the transliterated current cf_radial_solver with stub kernels: %s' % name), key='whole:%s' % key)))
+
+    def same(a, b):
+        if a is None or b is None:
+            return z3.BoolVal(a is b)
+        return eq_goal(Q.of(a), Q.of(b))
+    ob('every buffer access stays inside the extent the buffer was allocated / declared with (%d allocations)' % len(rec['alloc']), [z3.BoolVal(not viol)], 'extents')
+    ob('succeeds, every allocation is released exactly once, scaling and restoring are paired', [z3.BoolVal(sol is rec.get('solution') and sol.success is True),
+        z3.BoolVal(all(sum(1 for fr in rec['freed'] if fr is a) == 1 for a in rec['alloc'])), z3.BoolVal(rec['nondim'] == (1 if nondim else 0) and rec['redim'] == (1 if nondim else 0)),
+        z3.BoolVal(rec['redim_rf'] == (1 if nondim else 0))], 'protocol')
+    if len(rec['solver']) == L and len(rec['iface']) == L - 1 and len(rec['start']) == 1:
+        # storage written by the integration phase = main_storage[layer][solution] (allocation order: main, then per layer: by-solution, then one per solution)
+        by_y = [a_ for a_ in rec['alloc'] if a_.name == 'storage_by_y_ptr']
+        stor, idx = [], 0
+        for li in range(L):
+            stor.append(by_y[idx:idx + nsols[li]])
+            idx += nsols[li]
+        for li in range(L):
+            sv = rec['solver'][li]
+            ny = 2 * nsols[li]
+            a = sv.args
+            conds = [z3.BoolVal(a[0:3] == stack[li]), z3.BoolVal(a[3] == nsl[li]), z3.BoolVal(a[4] == 2 * ny), z3.BoolVal(sv.calls == nsols[li]), z3.BoolVal(len(getattr(sv, 'sols', [])) == nsols[li])]
+            for pt, arr_ in zip(a[5:10], (radius, density, gravity, bulk, shear)):
+                conds.append(z3.BoolVal(isinstance(pt, Ptr) and pt.base is arr_ and pt.off == starts[li]))
+            conds.append(z3.And(same(a[13][0], radius.data[starts[li]]), same(a[13][1], radius.data[starts[li] + nsl[li] - 1])))
+            ob('layer %d: cf_build_solver receives this layer\'s kind, slice count, 2 x num_ys, the array pointers at the layer start and the radial span' % li, conds, 'solver-args')
+            conds = []
+            for j in range(nsols[li]):
+                # initial condition seen by solve j: re/im interleaved copy of initial_y[j * 6 + y]
+                snap = sv.snap[j] if j < len(getattr(sv, 'snap', [])) else [None] * (2 * ny)
+                for y in range(ny):
+                    want = Q.csym('init_L%d_s%d_y%d' % (li, j, y))
+                    conds += [same(snap[2 * y], want.real), same(snap[2 * y + 1], want.imag)]
+            ob('layer %d: each solve starts from ITS solution\'s initial vector, real and imaginary parts interleaved (y0 pointer at solution * 12)' % li, conds, 'initial-conditions')
+            conds = []
+            for j in range(nsols[li]):
+                if j >= len(getattr(sv, 'sols', [])):
+                    conds.append(z3.BoolVal(False))
+                    continue
+                if j >= len(stor[li]):
+                    conds.append(z3.BoolVal(False))
+                    continue
+                st_, so_ = stor[li][j], sv.sols[j]
+                conds.append(z3.BoolVal(st_.extent == nsl[li] * ny and all(v is not None for v in st_.data)))
+                for sl in range(nsl[li]):
+                    for y in range(ny):
+                        got = st_.data[ny * sl + y]
+                        if got is not None:
+                            conds.append(same(got, Q.of(so_.data[2 * ny * sl + 2 * y]) + Q(0, 1) * Q.of(so_.data[2 * ny * sl + 2 * y + 1])))
+            ob('layer %d: the storage of every solution is written completely, element [slice, y] = complex(solver[2 num_ys slice + 2y], solver[... + 1]) of THAT solve' % li, conds, 'storage')
+        for li in range(1, L):
+            c = rec['iface'][li - 1]
+            nyb = 2 * nsols[li - 1]
+            conds = [z3.BoolVal(c['n_below'] == nsols[li - 1] and c['n_here'] == nsols[li]), z3.BoolVal(c['below'] == stack[li - 1] and c['here'] == stack[li]),
+                     same(c['ig'], (gravity.data[starts[li]] + gravity.data[starts[li] - 1]) / 2)]
+            for j in range(nsols[li - 1]):
+                for y in range(nyb):
+                    conds.append(same(c['upp'][j * nyb + y], stor[li - 1][j].data[nyb * (nsl[li - 1] - 1) + y]))
+            ob('interface below layer %d: cf_solve_upper_y_at_interface receives the top-slice values of every solution of the layer below, both layer kinds, and the mean of the two interface gravities' % li,
+               conds, 'interface-forward')
+        c0 = rec['start'][0]
+        ob('innermost layer: cf_find_starting_conditions receives the layer kind and the material values of the FIRST slice',
+           [z3.BoolVal((c0['lt'], c0['st'], c0['inc']) == stack[0]), same(c0['r_lo'], radius.data[0]), same(c0['rho_lo'], density.data[0]), same(c0['K_lo'], bulk.data[0]), same(c0['mu_lo'], shear.data[0])],
+           'starting-call')
+    else:
+        ob('one solver per layer, one interface call per interface, one starting-condition call', [z3.BoolVal(False)], 'counts')
+    return {'results': results, 'encoded': loader.ENCODED, 'label': 'whole run ' + tag}
 
 
 def job_skeleton(fname):
@@ -269,6 +477,9 @@ def job_dynamic(cfg, expect):
 
 def main():
     jobs = [(job_skeleton, {'fname': 'cf_radial_solver'}), (job_skeleton, {'fname': 'radial_solver'}), (job_solution_object, {}), (job_wrapper_sizes, {})]
+    for stack, nd in (([(0, False, False), (0, False, False)], False), ([(0, False, False), (1, True, False), (0, False, False)], True), ([(1, False, False), (0, True, False)], False),
+                      ([(0, True, True)], True), ([(0, False, False), (1, False, False), (1, True, False), (0, True, False)], False)):
+        jobs.append((job_whole, {'stack': stack, 'nondim': nd}))
     dyn = [({'layers': [['solid', True, False], ['liquid', False, False]], 'solve_for': ['tidal']}, 'liquid-dynamic-surface'),
            ({'layers': [['solid', True, False], ['liquid', True, False]], 'solve_for': ['tidal']}, 'liquid-static-surface'),
            ({'layers': [['solid', False, False]], 'solve_for': ['tidal', 'loading', 'free']}, 'solid-3types'),
